@@ -24,6 +24,7 @@ type opSpec struct {
 	Len     int    `json:"len"`
 	Ctx     string `json:"ctx"` // bg | pre | cancel | timeout | tcancel (WithTimeout far ahead, cancelled explicitly) | child (WithCancel child of a far deadline, cancelled explicitly)
 	CtxNs   int64  `json:"ctxNs"`
+	UserDL  int64  `json:"userDLNs,omitempty"` // reads: the caller has set this read deadline (from now) on the wrapped connection itself; the context stays live
 	After   string `json:"after,omitempty"` // "cancel": the caller cancels the context once the call has returned (defer cancel())
 }
 
@@ -39,6 +40,7 @@ type scenario struct {
 	Capacity int        `json:"capacity"`
 	MaxChunk int        `json:"maxChunk"`
 	Ends     [2]endSpec `json:"ends"`
+	ShortErr bool       `json:"shortErr,omitempty"` // packet stubs report io.ErrShortBuffer together with the leading bytes of a datagram longer than the slice
 	SetErr   bool       `json:"setErr"` // inject one failing SetDeadline call
 	SetErrAt int64      `json:"setErrAtNs"`
 	SetErrOn int        `json:"setErrOn"`
@@ -64,12 +66,22 @@ func gen(r *harn.Rng, tier string) interface{} {
 		if r.Bool(0.08) {
 			o.Len = 0
 		}
+		if write && r.Bool(0.05) {
+			o.Len = r.Pick(16384, 16385, 20000, 40000) // one message, however large
+		}
+		if !write && r.Bool(0.06) {
+			o.Len = r.Pick(20000, 50000)
+		}
 		if r.Bool(0.6) {
 			o.After = "cancel"
 		}
+
 		switch r.Intn(10) {
 		case 0:
 			o.Ctx = "pre"
+			if r.Bool(0.3) {
+				o.Ctx = "precause" // cancelled with a cause: the error is still the context's error (ctx.Err())
+			}
 		case 1, 2, 3:
 			o.Ctx, o.CtxNs = "cancel", gaps[r.Intn(len(gaps))]
 		case 4, 5:
@@ -79,6 +91,9 @@ func gen(r *harn.Rng, tier string) interface{} {
 			}
 		default:
 			o.Ctx = "bg"
+		}
+		if !write && o.Ctx == "bg" && r.Bool(0.15) {
+			o.UserDL = gaps[2+r.Intn(len(gaps)-2)]
 		}
 		return o
 	}
@@ -100,6 +115,7 @@ func gen(r *harn.Rng, tier string) interface{} {
 			}
 		}
 	}
+	sc.ShortErr = r.Bool(0.3)
 	if r.Bool(0.12) {
 		sc.SetErr = true
 		sc.SetErrAt = gaps[r.Intn(len(gaps))]
@@ -113,6 +129,7 @@ type end struct {
 	read      func(ctx context.Context, b []byte) (int, error)
 	write     func(ctx context.Context, b []byte) (int, error)
 	deadlines func() (time.Time, time.Time)
+	setUserReadDL func(time.Time)
 	injectErr func()
 	closeStub func()
 }
@@ -126,6 +143,7 @@ type opResult struct {
 	returned bool
 	ctx      context.Context
 	preDone  bool
+	userDL   bool      // the caller's own read deadline was in force on the wrapped connection
 	tCancel  time.Time // explicit cancellation of a deadline-carrying context
 	tRet     time.Time
 }
@@ -153,6 +171,7 @@ func run(env *simrt.Env, sci interface{}) {
 				ends[i] = end{read: w.ReadContext, write: w.WriteContext}
 			}
 			ends[i].deadlines = p.Deadlines
+			ends[i].setUserReadDL = func(t time.Time) { _ = p.SetReadDeadline(t) }
 			ends[i].injectErr = func() { p.InjectSetDeadlineError(simnet.ErrInjected) }
 			ends[i].closeStub = func() { _ = p.Close() }
 		}
@@ -165,7 +184,7 @@ func run(env *simrt.Env, sci interface{}) {
 			ends[i] = end{
 				read: func(ctx context.Context, b []byte) (int, error) { n, _, err := w.ReadFromContext(ctx, b); return n, err },
 				write: func(ctx context.Context, b []byte) (int, error) { return w.WriteToContext(ctx, b, p.LocalAddr()) },
-				deadlines: p.Deadlines, injectErr: func() { p.InjectSetDeadlineError(simnet.ErrInjected) }, closeStub: func() { _ = p.Close() },
+				deadlines: p.Deadlines, setUserReadDL: func(t time.Time) { _ = p.SetReadDeadline(t) }, injectErr: func() { p.InjectSetDeadlineError(simnet.ErrInjected) }, closeStub: func() { _ = p.Close() },
 			}
 		}
 	default:
@@ -181,6 +200,7 @@ func run(env *simrt.Env, sci interface{}) {
 				ends[i] = end{read: w.ReadContext, write: w.WriteContext}
 			}
 			ends[i].deadlines = s.Deadlines
+			ends[i].setUserReadDL = func(t time.Time) { _ = s.SetReadDeadline(t) }
 			ends[i].injectErr = func() { s.InjectSetDeadlineError(simnet.ErrInjected) }
 			ends[i].closeStub = func() { _ = s.Close() }
 		}
@@ -194,6 +214,12 @@ func run(env *simrt.Env, sci interface{}) {
 		var ctx context.Context
 		var cancel context.CancelFunc
 		switch spec.Ctx {
+		case "precause":
+			var cc context.CancelCauseFunc
+			ctx, cc = context.WithCancelCause(context.Background())
+			cc(errors.New("harness: custom cause"))
+			cancel = func() { cc(nil) }
+			res.preDone = true
 		case "pre":
 			ctx, cancel = context.WithCancel(context.Background())
 			cancel()
@@ -245,8 +271,15 @@ func run(env *simrt.Env, sci interface{}) {
 			res.data = append([]byte(nil), payload[:max0(res.n)]...)
 		} else {
 			buf := make([]byte, spec.Len)
+			if spec.UserDL > 0 && ends[e].setUserReadDL != nil && !faulty[e] && !sc.SetErr && len(sc.Ends[e].Reads2) == 0 {
+				ends[e].setUserReadDL(env.Now().Add(time.Duration(spec.UserDL)))
+				res.userDL = true
+			}
 			env.Enter("ReadContext")
 			res.n, res.err = ends[e].read(ctx, buf)
+			if res.userDL {
+				ends[e].setUserReadDL(time.Time{})
+			}
 			res.data = append([]byte(nil), buf[:max0(res.n)]...)
 		}
 		env.Leave()
@@ -264,7 +297,7 @@ func run(env *simrt.Env, sci interface{}) {
 			env.Fail("C17/context-error-not-reported", "end %d %s with an already cancelled context returned (0, %v), want the context's error", e, opName(write), res.err)
 			return res
 		}
-		if res.n == 0 && errors.Is(res.err, os.ErrDeadlineExceeded) {
+		if res.n == 0 && errors.Is(res.err, os.ErrDeadlineExceeded) && !res.userDL {
 			env.Fail("C17/internal-timeout-leaked", "end %d %s returned (0, %v): the deadline forced by the wrapper surfaced instead of the context's error (ctx.Err()=%v)", e, opName(write), res.err, ctx.Err())
 			return res
 		}
@@ -353,6 +386,13 @@ func run(env *simrt.Env, sci interface{}) {
 			}))
 		}
 	}
+	if sc.ShortErr {
+		for _, p := range packets {
+			if p != nil {
+				p.ShortBufferError = true
+			}
+		}
+	}
 	if sc.SetErr {
 		env.Go("faulter", func() {
 			env.Sleep(time.Duration(sc.SetErrAt))
@@ -380,6 +420,16 @@ func run(env *simrt.Env, sci interface{}) {
 					env.Fail("C17/cancelled-operation-stuck", "end %d %s #%d is still blocked at quiescence although its context is done (%v)", e, opName(k == 1), i, r.ctx.Err())
 					return
 				}
+			}
+		}
+	}
+	// "otherwise behaves like the wrapped connection": a read deadline the caller has set on the
+	// wrapped connection itself ends a read whose context stays live
+	for e := 0; e < 2; e++ {
+		for i, r := range results[e][0] {
+			if r.userDL && !r.returned && r.ctx.Err() == nil && !faulty[e] {
+				env.Fail("C17/user-deadline-ignored", "end %d read #%d is still blocked at quiescence: its context is live, but the caller had set a read deadline (%v ahead) on the wrapped connection, which has long passed", e, i, time.Duration(r.spec.UserDL))
+				return
 			}
 		}
 	}
